@@ -367,7 +367,11 @@ Section Fold.
       if Z.eqb tgt 0 then PNone st
       else if Z.eqb src tgt then repl_identity st n x
       else match n_outs n with
-           | y :: _ => PRepl st [mk "Cast" [Some x] [y] [("to", AInt tgt)]]
+           | y :: _ =>
+             let sat := if castlike_keeps_saturate then
+                          match int_attr n "saturate" None with Some z => [("saturate", AInt z)] | None => [] end
+                        else [] in
+             PRepl st [mk "Cast" [Some x] [y] (("to", AInt tgt) :: sat)]
            | [] => PNone st
            end
     end.
@@ -983,6 +987,7 @@ Section Fold.
       let dups := map dup_name os in
       nodupb outs && nodupb dups && disjointb dups (names_nodes nodes ++ gi ++ outs ++ bound)%list
       && disjointb ss outs && disjointb ss gi && disjointb os gi && disjointb (os ++ ss)%list bound
+      && subset (os ++ ss ++ dups)%list scope
       && forallb (fun kv => match snd kv with
                             | SVal t => mem (fst kv) scope || negb (mem t (os ++ ss)%list)
                             | _ => true
